@@ -8,6 +8,7 @@ package main
 
 import (
 	"bufio"
+	"bytes"
 	"encoding/json"
 	"flag"
 	"fmt"
@@ -18,6 +19,8 @@ import (
 	"sort"
 	"sync"
 	"time"
+
+	connect "github.com/bufbuild/connect-go"
 )
 
 // Event is one trace line.  "ev" is always written first.
@@ -87,6 +90,8 @@ var (
 	flagWorkers = flag.Int("workers", runtime.NumCPU(), "parallel scenarios")
 	flagHang    = flag.Duration("hang", 120*time.Second, "watchdog per scenario")
 	flagProf    = flag.String("cpuprofile", "", "write a CPU profile")
+	flagPool    = flag.String("pooltrace", "", "record buffer pool Get/Put events (verif hooks) into this NDJSON file")
+	flagPoison  = flag.Bool("poison", true, "overwrite buffers returned to the pool (verif hook)")
 )
 
 func main() {
@@ -95,6 +100,10 @@ func main() {
 		f, _ := os.Create(*flagProf)
 		_ = pprof.StartCPUProfile(f)
 		defer pprof.StopCPUProfile()
+	}
+	connect.VerifPoolPoison = *flagPoison
+	if *flagPool != "" {
+		installPoolRecorder()
 	}
 	fn, ok := families[*flagFamily]
 	if !ok {
@@ -181,6 +190,12 @@ func main() {
 	}
 	bw.Flush()
 	out.Close()
+	if *flagPool != "" {
+		if err := writePoolTrace(*flagPool); err != nil {
+			fmt.Fprintln(os.Stderr, err)
+			os.Exit(2)
+		}
+	}
 	fmt.Fprintf(os.Stderr, "runner: %d scenarios, %d events, %d hangs\n", len(scen), nev, hangs)
 }
 
@@ -188,4 +203,68 @@ func allStacks() string {
 	buf := make([]byte, 1<<16)
 	n := runtime.Stack(buf, true)
 	return string(buf[:n])
+}
+
+// ---- buffer pool recorder (verif hooks) ---------------------------------------------------------------
+
+type poolEvent struct {
+	get       bool
+	pool, buf int
+}
+
+var poolRec struct {
+	mu     sync.Mutex
+	pools  map[any]int
+	bufs   map[*bytes.Buffer]int // also keeps every buffer alive, so that an address is never reused
+	events []poolEvent
+}
+
+func installPoolRecorder() {
+	poolRec.pools = map[any]int{}
+	poolRec.bufs = map[*bytes.Buffer]int{}
+	connect.VerifPoolHook = func(get bool, pool any, buffer *bytes.Buffer) {
+		poolRec.mu.Lock()
+		p, ok := poolRec.pools[pool]
+		if !ok {
+			p = len(poolRec.pools) + 1
+			poolRec.pools[pool] = p
+		}
+		b, ok := poolRec.bufs[buffer]
+		if !ok {
+			b = len(poolRec.bufs) + 1
+			poolRec.bufs[buffer] = b
+		}
+		poolRec.events = append(poolRec.events, poolEvent{get, p, b})
+		poolRec.mu.Unlock()
+	}
+}
+
+func writePoolTrace(path string) error {
+	f, err := os.Create(path)
+	if err != nil {
+		return err
+	}
+	bw := bufio.NewWriterSize(f, 1<<20)
+	// the ownership rule is per buffer, so the events are written as independent traces, one per group of
+	// buffers (keeps the specification's sets small)
+	const groups = 256
+	poolRec.mu.Lock()
+	for g := 0; g < groups; g++ {
+		fmt.Fprintf(bw, "{\"ev\":\"reset\",\"tid\":%d,\"sc\":{\"group\":%d}}\n", g+1, g)
+		for _, e := range poolRec.events {
+			if e.buf%groups != g {
+				continue
+			}
+			name := "put"
+			if e.get {
+				name = "get"
+			}
+			fmt.Fprintf(bw, "{\"ev\":%q,\"pool\":%d,\"buf\":%d}\n", name, e.pool, e.buf)
+		}
+	}
+	poolRec.mu.Unlock()
+	if err := bw.Flush(); err != nil {
+		return err
+	}
+	return f.Close()
 }
